@@ -61,6 +61,7 @@ type PathResult struct {
 	UnknownBr int
 	Funcs     map[string]bool
 	Allocs    []string
+	Events    []Event
 }
 
 // abort ends the current path (not a Go panic of the target program).
